@@ -35,5 +35,5 @@ func (a *MaximumNumberOfSupportedPacketFilters) GetMaximumNumberOfSupportedPacke
 // MaximumNumberOfSupportedPacketFilters Row, sBit, len = [0, 1], 8 , 10
 func (a *MaximumNumberOfSupportedPacketFilters) SetMaximumNumberOfSupportedPacketFilters(maximumNumberOfSupportedPacketFilters uint16) {
 	a.Octet[0] = uint8((maximumNumberOfSupportedPacketFilters)>>2) & 255
-	a.Octet[1] = a.Octet[1]&GetBitMask(6, 6) + uint8(maximumNumberOfSupportedPacketFilters&3)<<6
+	a.Octet[1] = a.Octet[1]&GetBitMask(6, 0) + uint8(maximumNumberOfSupportedPacketFilters&3)<<6
 }
